@@ -45,10 +45,17 @@ def excl_delete(tr, path, missing):
     v = tr.variant_known(path, ())
     if not (isinstance(v, str) and v.endswith("Expr::Unary")):
         return None
+    from . import gate as _gate
+
     for c in path.conds:
         if c.get("t") != "bool":
             continue
-        e = hir.peel(c["e"])
+        e = _gate._resolve_bool_local(tr.fn, c["e"])
+        val = c["v"]
+        while e.get("k") == "Unary" and e["op"] == "Not":
+            e = _gate._resolve_bool_local(tr.fn, e["x"])
+            val = not val
+        c = {"t": "bool", "e": e, "v": val}
         if e.get("k") == "Binary" and e["op"] in ("Eq", "Ne"):
             sides = [hir.peel(e["l"]), hir.peel(e["r"])]
             consts = [hir.def_path_of(s) for s in sides]
@@ -156,7 +163,11 @@ def run_cover(check, rule, visitor, targets, exclusions, min_overrides, block_ov
     prog = check.prog
     graph = AdtGraph(prog.adts)
     ovs = overrides_of(prog, visitor)
-    check.floor(rule, "overrides of %s" % visitor, len(ovs), min_overrides)
+    if isinstance(min_overrides, (set, list, tuple)):
+        missing_ov = sorted(set(min_overrides) - {f.name for f in ovs})
+        check.expect(not missing_ov, rule, "%s/ANCHOR/overrides of %s" % (rule, visitor), "-", "%s overrides %s" % (visitor, sorted(f.name for f in ovs)), "essential override(s) %s of %s not found: anchor lost" % (missing_ov, visitor))
+    else:
+        check.floor(rule, "overrides of %s" % visitor, len(ovs), min_overrides)
     overridden_types = {}
     for f in ovs:
         prm = f.rec["params"]
